@@ -24,6 +24,16 @@ func verifProbe(v *VM) {
 
 func verifKeepDead() bool { return VerifKeepDeadCode }
 
+// VerifRunStart, when non-nil, is invoked at the very start of VM.Run, on the
+// goroutine that runs the VM, before any VM state is touched.
+var VerifRunStart func(v *VM)
+
+func verifRunStart(v *VM) {
+	if VerifRunStart != nil {
+		VerifRunStart(v)
+	}
+}
+
 // VerifState exposes the VM registers after a run.
 func (v *VM) VerifState() (sp, framesIndex int, allocs int64) {
 	return v.sp, v.framesIndex, v.allocs
